@@ -78,8 +78,16 @@ def single_exit(stmts: List[ast.stmt], retvar: str) -> Optional[List[ast.stmt]]:
             new = ast.copy_location(ast.If(test=st.test, body=b or [ast.Pass()], orelse=o), st)
             out.append(new)
             return out
+        if isinstance(st, (ast.With, ast.AsyncWith)) and _contains_return([st]) and (i == len(stmts) - 1 or _always_exits(st.body)):
+            # `with cm: ...; return e` as the last statement: the block is left normally with the result set
+            b = single_exit(st.body, retvar)
+            if b is None:
+                return None
+            new = ast.copy_location(ast.With(items=st.items, body=b), st)
+            out.append(new)
+            return out
         if _contains_return([st]):
-            return None              # return inside a loop / try / with
+            return None              # return inside a loop / try
         out.append(st)
     out.append(ast.Assign(targets=[ast.Name(id=retvar, ctx=ast.Store())], value=ast.Constant(value=None)))
     return out
